@@ -410,6 +410,75 @@ theorem saturateCast_eq (To From : ITy) (hTo : 1 ≤ To.w) (hFrom : 1 ≤ From.w
 example : saturateCast ⟨8, true⟩ ⟨64, false⟩ (2^64 - 1) = .ok (Spec.clampTo (-128) 127 (2^64 - 1)) :=
   saturateCast_eq ⟨8, true⟩ ⟨64, false⟩ (by decide) (by decide) _ (by decide)
 
+/-! ## div_sat, idiv -/
+
+/-- `div_sat`: the truncated quotient clamped to the type; the only quotient that is not representable,
+    `min / -1`, is answered `max` before any division is evaluated. -/
+theorem divSat_eq (t : ITy) (hw : 1 ≤ t.w) (x y : Int) (hx : t.inR x = true) (hy : t.inR y = true) (hy0 : y ≠ 0) :
+    divSat t x y = .ok (Spec.clampTo t.min t.max (Int.tdiv x y)) := by
+  have h2 := two_pow_split t.w hw
+  have hp : (0:Int) < 2^(t.w-1) := Int.pow_pos (by decide)
+  unfold divSat
+  have hy0' : (y == 0) = false := by simp [hy0]
+  simp only [hy0', Bool.false_eq_true, if_false]
+  by_cases hex : t.sg = true ∧ x = t.min ∧ y = -1
+  · obtain ⟨hs, hxm, hym⟩ := hex
+    have : (t.sg && x == t.min && y == -1) = true := by simp [hs, hxm, hym]
+    rw [this]; simp only [if_true]
+    subst hym
+    have : Int.tdiv x (-1) = -x := by rw [Int.tdiv_neg, Int.tdiv_one]
+    rw [this, hxm]
+    unfold Spec.clampTo ITy.min ITy.max; simp only [hs, if_true]
+    congr 1
+    split
+    · omega
+    · split <;> omega
+  · have : (t.sg && x == t.min && y == -1) = false := by
+      cases hs : t.sg
+      · simp
+      · by_cases h1 : x = t.min <;> by_cases h3 : y = -1 <;> simp [h1, h3]
+        exact hex ⟨hs, h1, h3⟩
+    rw [this]; simp only [Bool.false_eq_true, if_false]
+    have hq := tdiv_inR t hw x y hx hy hy0 hex
+    rw [arith_ok _ (promote_w t hw) _ (promote_inR t hw _ hq)]
+    simp only [ok_bind, conv_of_inR t hw _ hq]
+    rw [inR_iff] at hq
+    unfold Spec.clampTo; congr 1
+    split
+    · omega
+    · split <;> omega
+
+example : divSat ⟨8, true⟩ (-128) (-1) = .ok (Spec.clampTo (-128) 127 (Int.tdiv (-128) (-1))) :=
+  divSat_eq ⟨8, true⟩ (by decide) _ _ (by decide) (by decide) (by decide)
+
+/-- `idiv`: truncated quotient and remainder, defined whenever the quotient is representable -/
+theorem idiv_eq (t : ITy) (hw : 1 ≤ t.w) (x y : Int) (hx : t.inR x = true) (hy : t.inR y = true) (hy0 : y ≠ 0)
+    (hex : ¬ (t.sg = true ∧ x = t.min ∧ y = -1)) : idiv t x y = .ok (Spec.idiv x y) := by
+  have h2 := two_pow_split t.w hw
+  have hp : (0:Int) < 2^(t.w-1) := Int.pow_pos (by decide)
+  unfold idiv Spec.idiv
+  have hy0' : (y == 0) = false := by simp [hy0]
+  simp only [hy0', Bool.false_eq_true, if_false]
+  have hq := tdiv_inR t hw x y hx hy hy0 hex
+  rw [arith_ok _ (promote_w t hw) _ (promote_inR t hw _ hq)]
+  simp only [ok_bind, conv_of_inR t hw _ hq]
+  have hr : t.inR (Int.tmod x y) = true := by
+    have hn : (Int.tmod x y).natAbs = x.natAbs % y.natAbs := Int.natAbs_tmod x y
+    have hlt : x.natAbs % y.natAbs < y.natAbs := Nat.mod_lt _ (by omega)
+    cases hs : t.sg
+    · have hx0 := nonneg_of_unsigned t hs x hx
+      have hy0'' := nonneg_of_unsigned t hs y hy
+      have := Int.tmod_nonneg y hx0
+      rw [inR_iff] at hy ⊢
+      unfold ITy.min ITy.max at *; simp only [hs, Bool.false_eq_true, if_false] at hy ⊢; omega
+    · rw [inR_iff] at *
+      unfold ITy.min ITy.max at *; simp only [hs, if_true] at *; omega
+  rw [conv_of_inR t hw _ hr]
+
+
+example : idiv ⟨8, true⟩ (-128) 3 = .ok (Spec.idiv (-128) 3) :=
+  idiv_eq ⟨8, true⟩ (by decide) _ _ (by decide) (by decide) (by decide) (by decide)
+
 /-! ## gcd, lcm (after the two `fix:` commits), abs, ilog2 -/
 
 /-- gcd: for arguments whose absolute values are representable in the common type, the result is
